@@ -224,6 +224,16 @@ void reify_wrapped_unit(const char *tag, W) {
     printf(",\"same_rep\":1,\"value_ok\":1}\n");
 }
 
+// ---- point units (C10) --------------------------------------------------------------------------
+template <typename Ui, typename Common>
+void reify_point_map(const char *tag) {
+    const long long y0 = au::make_quantity_point<Ui>(0LL).template coerce_in<long long>(Common{});
+    const long long y1 = au::make_quantity_point<Ui>(1LL).template coerce_in<long long>(Common{});
+    const long long y7 = au::make_quantity_point<Ui>(7LL).template coerce_in<long long>(Common{});
+    printf("{\"ev\":\"pmap\",\"tag\":\"%s\",\"y0\":%lld,\"y1\":%lld,\"y7\":%lld,\"in_tid\":\"%s\",\"point_equiv\":%d}\n", tag, y0, y1, y7, typeid(Ui).name(),
+           (int)au::AreUnitsPointEquivalent<Ui, Common>::value);
+}
+
 }  // namespace vfy
 
 #endif
